@@ -12,7 +12,9 @@ import (
 	"io/fs"
 	"net/http"
 	"net/url"
+	"os"
 	"path"
+	"path/filepath"
 	"strings"
 	"time"
 
@@ -22,6 +24,7 @@ import (
 func init() {
 	vx.Register("VH_C16_static", VH_C16_static)
 	vx.Register("VH_C16_dir", VH_C16_dir)
+	vx.Register("VH_C16_default", VH_C16_default)
 }
 
 var vErrNoFile = errors.New("harness fs: no such file")
@@ -251,7 +254,11 @@ func VH_C16_static() {
 		vx.Assert(len(spy.Header()) == 0, "C16: ... and leaves no response header behind for the rest of the chain")
 		vx.Assert(reachedNext, "C16: ... so the rest of the chain handles the request")
 	}
-	vx.Observe("static", method, upath, vfs.opened, spy.firstCode, spy.bytes)
+	nb := spy.bytes
+	if redirected {
+		nb = -1 // the real http.Redirect adds a small HTML body for GET, the stub does not
+	}
+	vx.Observe("static", method, upath, vfs.opened, spy.firstCode, nb)
 }
 
 // VH_C16_dir: containment lemma for the default FileSystem: http.Dir(d).Open
@@ -285,4 +292,51 @@ func VH_C16_dir() {
 		vx.Assert(!dotdot, "C16/lemma: the path handed to the operating system has no .. element")
 	}
 	vx.Observe("dir", name, len(opened), err != nil)
+}
+
+// VH_C16_default: with no options at all the directory served is "public"
+// (relative to the working directory), nothing else.
+func VH_C16_default() {
+	n := vx.ParamInt("n")
+	name := vx.String(n)
+	vx.Assume(len(name) > 0)
+	for i := 0; i < len(name); i++ {
+		vx.Assume(vx.And(name[i] >= 'a', name[i] <= 'z'))
+	}
+	const msg = "C16: with no options only files inside the directory \"public\" are served"
+	f := NewWithLogger(io.Discard)
+	f.Use(Static())
+	f.NotFound(func() {})
+	spy := &vSpy{}
+	if vx.Symbolic() {
+		f.ServeHTTP(spy, &http.Request{Method: "GET", URL: &url.URL{Path: "/" + name}, Header: http.Header{}})
+		opened := 0
+		for _, e := range vx.StubLog() {
+			if strings.HasPrefix(e, "os.Open ") {
+				opened++
+				p := e[len("os.Open "):]
+				vx.Assert(p == "public/"+name, msg)
+			}
+		}
+		vx.Assert(opened >= 1, "C16: the default file system is consulted")
+		vx.Observe("default", name, opened)
+		return
+	}
+	// natively: a scratch working directory with the same name inside and outside "public"
+	dir, err := os.MkdirTemp("", "verif_c16_")
+	if err != nil {
+		return
+	}
+	defer os.RemoveAll(dir)
+	old, _ := os.Getwd()
+	_ = os.Mkdir(filepath.Join(dir, "public"), 0o755)
+	_ = os.WriteFile(filepath.Join(dir, "public", name), []byte("IN"), 0o644)
+	_ = os.WriteFile(filepath.Join(dir, name), []byte("OUT"), 0o644)
+	if os.Chdir(dir) != nil {
+		return
+	}
+	defer func() { _ = os.Chdir(old) }()
+	f.ServeHTTP(spy, &http.Request{Method: "GET", URL: &url.URL{Path: "/" + name}, Header: http.Header{}})
+	vx.Assert(spy.firstCode == 200 && string(spy.body) == "IN", msg)
+	vx.Observe("default", name, 1)
 }
